@@ -68,6 +68,7 @@ class Seg:
         "poll_true",
         "classifies",
         "t_decide",
+        "budget_full",
     )
 
 
@@ -130,6 +131,7 @@ class View:
                 s.bsleeps = []
                 s.sleeps = []
                 s.classifies = []
+                s.budget_full = False
                 s.obj = rec.objs.get(i0)
                 if self.no_retry and k == "exc" and s.obj is not None:
                     # no retry component: the policy classifies with default_classifier
@@ -159,6 +161,10 @@ class View:
                 cur.strategies.append(ev)
             elif t == "budget":
                 cur.consumes.append(ev)
+            elif t == "budget_level":
+                # the budget's own answer at the moment `budget_exhausted` was reported (0 tokens left = the window is full)
+                if ev[1] < 1:
+                    cur.budget_full = True
             elif t == "metric":
                 if ev[1] == "retry":
                     cur.retries.append(ev)
